@@ -141,6 +141,7 @@ class SimProcess:
         self.state = state
         self.free_at = 0.0
         self.tasks_done = 0
+        self.chunks_done = 0
         self.slow = 1
         self.exitcode = None
         self._config = {'authkey': b'sim', 'semprefix': '/mp', 'daemon': True}
@@ -369,6 +370,7 @@ class SimPool:
                 else:
                     failed = val
                 p.tasks_done += 1
+            p.chunks_done += 1          # maxtasksperchild counts messages (chunks), as multiprocessing.pool.worker does
             if failed is not None:
                 # mapstar: the first exception aborts the rest of the chunk and is the chunk's result
                 for tj in chunk:
@@ -376,7 +378,7 @@ class SimPool:
             dur = self._duration(p, len(chunk))
             p.free_at = start_t + dur
             completions.append((p.free_at, cno, chunk))
-            if self.maxtasks is not None and p.tasks_done >= self.maxtasks:
+            if self.maxtasks is not None and p.chunks_done >= self.maxtasks:
                 new = self._spawn_worker()
                 new.free_at = p.free_at
                 new.slow = p.slow
